@@ -220,6 +220,9 @@ def check_histories(ck: Check):
     # corpus: cross-cursor / cross-connection visibility
     hists.insert(0, (2, [("set", 0, 0, "A", VALUES[0]), ("use", 0, 1, ["a"], None), ("use", 1, 0, ["A"], None), ("set", 0, 1, "A", VALUES[2]),
                          ("use", 0, 0, ["a"], None), ("use", 0, 0, ["a"], "pay $a now"), ("unset", 0, 1, "A"), ("use", 0, 0, ["a"], None)]))
+    # the same cursor repeating the same statement text while ANOTHER cursor of the connection changes the variable
+    hists.insert(1, (2, [("set", 0, 0, "A", VALUES[0]), ("use", 0, 0, ["a"], None), ("set", 0, 1, "A", VALUES[2]), ("use", 0, 0, ["a"], None), ("use", 0, 0, ["a"], None),
+                         ("unset", 0, 1, "A"), ("use", 0, 0, ["a"], None), ("set", 1, 1, "A", VALUES[1]), ("use", 1, 0, ["a"], None), ("use", 0, 0, ["a"], None)]))
     cases, all_obs, reported = [], [], False
     for nconn, ops in hists:
         enc_ops, obs, texts, clean = run_history(nconn, ops)
